@@ -298,6 +298,9 @@ def main(argv=None):
     if not a.no_evidence and not a.only:
         os.makedirs(os.path.join(VERIF, "evidence"), exist_ok=True)
         json.dump(ev, open(os.path.join(VERIF, "evidence", prop + ".json"), "w"), indent=1, default=str)
+        if a.tier == "thorough":  # keep the last thorough run beside the per-change (quick) evidence
+            os.makedirs(os.path.join(VERIF, "evidence", "thorough"), exist_ok=True)
+            json.dump(ev, open(os.path.join(VERIF, "evidence", "thorough", prop + ".json"), "w"), indent=1, default=str)
     for p in table:
         print("%-28s parts %3d/%-3d paths %6d nontrivial %6d z3 %6d q %6.1fs cpu %7.1fs twin=%s known=%s %s" % (
             p["name"], p["confirmed"], p["partitions"], p["paths"], p["nontrivial"], p["z3_queries"], p["z3_s"], p["cpu_wall_s"],
